@@ -9,7 +9,7 @@ from gv.model import dbutil
 
 ID = "C19"
 RULE = (
-    "Part 'clobber' (shards = old file database in {GFF3, GTF, GFF3 after an update, GTF without inference, GFF3 with every feature "
+    "Part 'clobber' (shards = old file database in {GFF3, GTF, GFF3 after an update (13 features: more than an importer inspects before it writes), GTF without inference, GFF3 with every feature "
     "deleted again} x new input in 3): force x input form {path, from_string, list of Features; for new input 0 and a non-emptied old "
     "database also 'selfdb' = the old database itself as a FeatureDB opened on the very path to be rebuilt} x old database opened "
     "before in this process or not x call variant {plain, rejected merge_strategy/force_merge_fields combination, pragmas=None, input "
@@ -50,6 +50,8 @@ GTF = [
     'c1\ts\tCDS\t5\t70\t.\t-\t0\tgene_id "g1"; transcript_id "m1"; tag "late";',
 ]
 UPD = ["c1\ts\texon\t45\t50\t.\t+\t.\tParent=m1", "c1\ts\tgene\t200\t300\t.\t-\t.\tID=g9"]
+# ... and enough further genes that the updated database holds more features (13) than an importer looks at before it starts writing
+UPD += ["c2\ts\tgene\t%d\t%d\t.\t+\t.\tID=g1%d" % (10 * i, 10 * i + 5, i) for i in range(4)]
 NEW = [
     ["c9\tz\tgene\t7\t9\t.\t+\t.\tID=n1"],
     ['c9\tz\texon\t7\t9\t.\t+\t.\tgene_id "n1"; transcript_id "nt1";'],
